@@ -172,6 +172,61 @@ def case_update(dim, shape):
     return CaseResult(fails=fails, states=states, transitions=trans, traces=trans, outcome=f"update:{dim}:{shape}:{nz}")
 
 
+def case_update_generated(dim, dtype):
+    """The penalised-update identity on the GENERATED CODE (pystencils -> g++) with every array argument in a
+    different memory layout (contiguous / window of a padded array / every second cell of a larger array):
+    update_from_penalised(w, up, u, p) == update_from_forcing(w, up - u, p) up to rounding."""
+    import sopht.numeric.eulerian_grid_ops as spne
+    from harness import shim
+
+    real_t = np.dtype(dtype).type
+    eps = float(np.finfo(real_t).eps)
+    shape = (9, 11) if dim == 2 else (7, 9, 11)
+    s = f"_{dim}d"
+    fails = []
+    shim.set_backend("jit")
+    try:
+        upd = getattr(spne, f"gen_update_vorticity_from_velocity_forcing_pyst_kernel{s}")(real_t=real_t)
+        pen = getattr(spne, f"gen_update_vorticity_from_penalised_velocity_pyst_kernel{s}")(real_t=real_t)
+
+        def gen(shp, k):
+            i = np.arange(int(np.prod(shp)), dtype=np.float64)
+            return (np.sin(0.7 * i + k) + 0.3 * np.cos(2.3 * i + 0.5 * k)).reshape(shp)
+
+        def window(a):
+            big = np.full(tuple(n + 3 for n in a.shape), -7.0, dtype=real_t)
+            v = big[tuple(slice(1, 1 + n) for n in a.shape)]
+            v[...] = a
+            return v
+
+        def strided(a):
+            big = np.full(tuple(2 * n for n in a.shape), 5.0, dtype=real_t)
+            v = big[tuple(slice(None, None, 2) for _ in a.shape)]
+            v[...] = a
+            return v
+
+        wshape = shape if dim == 2 else (3, *shape)
+        states = 0
+        for rot in range(3):
+            layouts = [np.ascontiguousarray, window, strided]
+            lw, lp, lu = layouts[rot % 3], layouts[(rot + 1) % 3], layouts[(rot + 2) % 3]
+            w0 = gen(wshape, 1).astype(real_t)
+            u = gen((dim, *shape), 2).astype(real_t)
+            up = gen((dim, *shape), 3).astype(real_t)
+            w_pen = lw(w0.copy())
+            pen(vorticity_field=w_pen, penalised_velocity_field=lp(up), velocity_field=lu(u), prefactor=real_t(0.375))
+            w_for = w0.copy()
+            upd(vorticity_field=w_for, velocity_forcing_field=(up.astype(np.float64) - u.astype(np.float64)).astype(real_t), prefactor=real_t(0.375))
+            states += 1
+            scale = 1.0 + float(np.abs(up).max() + np.abs(u).max()) * 0.375 * 4
+            if not np.all(np.abs(w_pen.astype(np.float64) - w_for.astype(np.float64)) <= 64 * eps * scale):
+                fails.append(Fail(f"update{s}:penalised-vs-forcing:generated-code", "generated kernels with arguments of different memory layouts: update_from_penalised(w, up, u, p) != update_from_forcing(w, up - u, p)",
+                                  layouts=[f.__name__ for f in (lw, lp, lu)], dtype=dtype))
+    finally:
+        shim.set_backend("interp")
+    return CaseResult(fails=fails, states=states, transitions=2 * states, traces=states, outcome=f"update-generated:{dim}:{dtype}")
+
+
 def case_monitor(shape, dtype, poisson, pattern, transport=False):
     """3-D simulator's own divergence monitor after a curl-type (forcing) update."""
     import sopht.simulator as sps
@@ -223,7 +278,7 @@ def case_monitor(shape, dtype, poisson, pattern, transport=False):
     return CaseResult(fails=fails, states=1, transitions=2, traces=2, outcome=f"monitor:{shape}:{poisson}:{transport}:{after > 0}", extra={"divergence_norm": float(after), "tol": tol})
 
 
-CASES = {"divcurl": case_divcurl, "2d": case_2d, "update": case_update, "monitor": case_monitor}
+CASES = {"update_generated": case_update_generated, "divcurl": case_divcurl, "2d": case_2d, "update": case_update, "monitor": case_monitor}
 
 
 def run(r) -> None:
@@ -238,6 +293,7 @@ def run(r) -> None:
     g2 = [(7, 9)] if quick else [(7, 9), (10, 8), (6, 6)]
     r.run_cases("2d-identities", "2d", [dict(shape=s) for s in g2])
     r.run_cases("update-vs-curl", "update", [dict(dim=2, shape=s) for s in g2] + [dict(dim=3, shape=s) for s in ([(5, 6, 7)] if quick else [(5, 6, 7), (7, 5, 6)])])
+    r.run_cases("update-vs-curl-generated-code", "update_generated", [dict(dim=d, dtype=dt) for d in (2, 3) for dt in ("float64", "float32")])
     mon = [dict(shape=(14, 15, 16), dtype=dt, poisson=ps_, pattern=p + r.seed) for dt in ("float64", "float32")
            for ps_ in ("greens_function_convolution", "fast_diagonalisation") for p in ((0,) if quick else (0, 1, 2))]
     # with rotational-form transport of a divergence-free vorticity, on grids that are LONG along one axis (every axis)
